@@ -261,6 +261,32 @@ Theorem stl_mesh_normals_spec : forall idx nrm fns,
 Proof. exact mesh_normals_ok_spec. Qed.
 Print Assumptions stl_mesh_normals_spec.
 
+(* placement and value composed: in the bytes stl.WriteMesh wrote, the three words at byte offset 84 + 50 t are the
+   float32 roundings of the normalised sum of the normals of vertices idx[3t], idx[3t+1], idx[3t+2]
+   ([mesh_normals_ok] is what the check evaluates on the implementation's words on every run) *)
+Theorem stl_mesh_facet_normal_at : forall idx pos nrm fns bytes t,
+  write_mesh idx (Some pos) fns = Some bytes -> length idx = (3 * length fns)%nat ->
+  mesh_normals_ok idx nrm fns = true -> (t < length fns)%nat ->
+  exists pre post v, bytes = pre ++ vec12 v ++ post /\ length pre = (84 + 50 * t)%nat /\
+                     facet_ok (corner_sum idx nrm t) v = true.
+Proof. exact mesh_facet_normal_at. Qed.
+Print Assumptions stl_mesh_facet_normal_at.
+
+(* non-vacuity of the value oracle, branch by branch: a component that is exactly zero is accepted as +0 and as -0;
+   negative components; exactly 1.0 (lowest significand of its binade: the gap below is half the gap above);
+   a component that rounds to a float32 subnormal (2^-140); corner normals at a huge common scale *)
+Example stl_facet_value_examples :
+  facet_ok (0, 3, 4)%Z (0, 1058642330, 1061997773) = true /\
+  facet_ok (0, 3, 4)%Z (2147483648, 1058642330, 1061997773) = true /\
+  facet_ok (0, -3, 4)%Z (0, 3206125978, 1061997773) = true /\
+  facet_ok (0, 3, 4)%Z (0, 3206125978, 1061997773) = false /\
+  facet_ok (0, 0, 7)%Z (0, 0, 1065353216) = true /\
+  facet_ok (1, 0, 2 ^ 140)%Z (512, 0, 1065353216) = true /\
+  facet_ok (1, 0, 2 ^ 140)%Z (513, 0, 1065353216) = false /\
+  facet_ok (zscale (2 ^ 200) (1, 2, 2))%Z (1051372203, 1059760811, 1059760811) = true /\
+  facet_ok (0, 0, 0)%Z (0, 0, 0) = false.
+Proof. vm_compute. repeat split; reflexivity. Qed.
+
 (* behaviours the property excludes, as witnesses:
    the un-normalised mean is not accepted (three corner normals (0,0,2): mean (0,0,2) = word 0x40000000, the
    normalised mean is (0,0,1) = 0x3F800000); a word one ulp off the correctly rounded one is not accepted
